@@ -20,6 +20,11 @@ MechDoc(doc, fdocs, k) ==
                      fdocs, k + 1)
 UsName(fdoc) == \E j \in 1..Len(fdoc.dets) : fdoc.dets[j].name[1] = CH_US
 
+\* the pipeline of the cases with pipe = TRUE appends _x to every field name
+RECURSIVE SufQ(_, _)
+SufQ(e, suf) == CASE e.k = "leaf" -> [e EXCEPT !.a.f = IF @ = <<>> THEN @ ELSE @ \o suf]
+                  [] e.k = "not" -> [e EXCEPT !.a = SufQ(@, suf)]
+                  [] OTHER -> [e EXCEPT !.args = [j \in 1..Len(@) |-> SufQ(@[j], suf)]]
 RuleClauses(o, r) ==
     LET rule == o.rules[r]
         app == SelectSeq(o.filters, LAMBDA f : Applies(f, rule))
@@ -32,7 +37,8 @@ RuleClauses(o, r) ==
              IF Len(got) # n THEN <<C("OneQueryPerCondition")>>
              ELSE IF Len(app) = 0 THEN (IF got # o.plain.out[r] THEN <<C("OthersByteIdentical")>> ELSE <<>>)
              ELSE SelectSeq([c \in 1..n |->
-                    LET want == FilteredDen(rule.doc, c, fdocs)
+                    LET want0 == FilteredDen(rule.doc, c, fdocs)
+                        want == IF o.pipe /\ want0.st = "ok" THEN [want0 EXCEPT !.e = SufQ(@, <<95,120>>)] ELSE want0
                         g == ParseQuery(got[c], PREC)
                     IN  IF want.st # "ok" THEN C("")
                         ELSE IF ~g.ok THEN C("QueryUnreadable")
